@@ -153,26 +153,21 @@ Theorem c17_accepts_msg_codec_tx : forall legacy m b, Trxd.gen_tx legacy m = Trx
 Proof. exact acc_tx. Qed.
 Print Assumptions c17_accepts_msg_codec_tx.
 
-(* Rx version 0: accepted with identical fields (soft bits as the unsigned octets 127 - s, padding in 'pad') exactly when the
-   length rule of the source answers |burst| for |burst| + |padding| octets ... *)
+(* Rx version 0, GMSK and EDGE, legacy padding on or off: accepted with identical fields (soft bits as the unsigned octets
+   127 - s, the padding in 'pad').  The soft-bit length rule of the source enters only through the four table points
+   rule_at 148 = 148, rule_at 150 = 148, rule_at 444 = 444, rule_at 446 = 444 (checked against Gen on every run) *)
 Theorem c17_accepts_msg_codec_rx0 : forall legacy m b, Trxd.gen_rx legacy m = Trxd.Ok b -> Trxd.r_ver m = 0 ->
   (match Trxd.r_burst m with Some bs => Forall (fun s => -128 <= s <= 127) bs | None => True end) ->
   exists fn tn rssi toa bs, Trxd.r_fn m = Some fn /\ Trxd.r_tn m = Some tn /\ Trxd.r_rssi m = Some rssi /\ Trxd.r_toa m = Some toa /\
-    Trxd.r_burst m = Some bs /\ (length bs = 148%nat \/ length bs = 444%nat) /\
-    (rule_at (length bs + length (legacy_pad legacy 0)) = Ok (length bs) ->
-     decode true pdu_v0_rx b = Ok (rx0_fields tn fn rssi toa (TrxdRxRT.usbits bs) (legacy_pad legacy 0), length b)).
-Proof. exact acc_rx0. Qed.
+    Trxd.r_burst m = Some bs /\
+    decode true pdu_v0_rx b = Ok (rx0_fields tn fn rssi toa (TrxdRxRT.usbits bs) (if legacy && (0 =? 0) then [0; 0] else []), length b).
+Proof. exact acc_rx0_all. Qed.
 Print Assumptions c17_accepts_msg_codec_rx0.
 
-(* ... which the rule of the source does for 148, 444 and 446 octets: everything except legacy-padded GMSK *)
-Theorem c17_accepts_msg_codec_rx0_partial : forall legacy m b, Trxd.gen_rx legacy m = Trxd.Ok b -> Trxd.r_ver m = 0 ->
-  (match Trxd.r_burst m with Some bs => Forall (fun s => -128 <= s <= 127) bs | None => True end) ->
-  exists fn tn rssi toa bs, Trxd.r_fn m = Some fn /\ Trxd.r_tn m = Some tn /\ Trxd.r_rssi m = Some rssi /\ Trxd.r_toa m = Some toa /\
-    Trxd.r_burst m = Some bs /\
-    (legacy = false \/ length bs = 444%nat ->
-     decode true pdu_v0_rx b = Ok (rx0_fields tn fn rssi toa (TrxdRxRT.usbits bs) (legacy_pad legacy 0), length b)).
-Proof. exact acc_rx0_current. Qed.
-Print Assumptions c17_accepts_msg_codec_rx0_partial.
+Theorem c17_v0rx_length_rule :
+  rule_at 148 = Ok 148%nat /\ rule_at 150 = Ok 148%nat /\ rule_at 444 = Ok 444%nat /\ rule_at 446 = Ok 444%nat.
+Proof. exact rule_points. Qed.
+Print Assumptions c17_v0rx_length_rule.
 
 (* Rx version 1: NOPE indications and every burst, except the MTS code GMSK-AB (index 2) with TSC set 1 *)
 Theorem c17_accepts_msg_codec_rx1 : forall m b, Trxd.gen_rx false m = Trxd.Ok b \/ Trxd.gen_rx true m = Trxd.Ok b -> Trxd.r_ver m = 1 ->
@@ -187,12 +182,7 @@ Proof. exact acc_rx1. Qed.
 Print Assumptions c17_accepts_msg_codec_rx1.
 
 (* ------------------------------------------------------------------ refuted strengthenings = the defects of the pinned tree *)
-(* c17-v0rx-legacy-gmsk-rejected *)
-Theorem c17_v0rx_legacy_gmsk_refuted :
-  rule_at 150 = Ok 444%nat /\
-  decode true pdu_v0_rx ([0; 0; 0; 0; 0; 60; 0; 0] ++ repeat 127 148 ++ [0; 0]) = DecodeErr 0.
-Proof. exact v0rx_legacy_gmsk_refuted. Qed.
-Print Assumptions c17_v0rx_legacy_gmsk_refuted.
+(* c17-v0rx-legacy-gmsk-rejected: repaired in the source (fix commit 932bd90); the refuted lemma became c17_accepts_msg_codec_rx0 *)
 (* c17-mts-0111-unknown *)
 Theorem c17_mts_0111_unknown_refuted :
   assocZ (Trxd.mod_coding 2 + 1) burst_tab = None /\ burst_len_unknown = [7] /\
